@@ -80,19 +80,36 @@ class DeflateDecompressor(SimpleGzipDecompressor):
     def __init__(self):
         super().__init__()
         self.decompressobj = None
+        self._head = b''
 
     def decompress(self, value):
         if not self.decompressobj:
+            # The format is chosen from the 2 byte zlib header alone so that
+            # the choice does not depend on how the data is cut into pieces.
+            self._head += value
+
+            if len(self._head) < 2:
+                return b''
+
+            value, self._head = self._head, b''
+
             try:
-                self.decompressobj = zlib.decompressobj()
-                return self.decompressobj.decompress(value)
+                zlib.decompressobj().decompress(value[:2])
             except zlib.error:
                 self.decompressobj = zlib.decompressobj(-zlib.MAX_WBITS)
-                return self.decompressobj.decompress(value)
+            else:
+                self.decompressobj = zlib.decompressobj()
 
         return self.decompressobj.decompress(value)
 
     def flush(self):
+        if not self.decompressobj and self._head:
+            # Less than 2 bytes in total: it cannot have a zlib header.
+            value, self._head = self._head, b''
+            self.decompressobj = zlib.decompressobj(-zlib.MAX_WBITS)
+
+            return self.decompressobj.decompress(value) + super().flush()
+
         if self.decompressobj:
             return super().flush()
         else:
